@@ -5,7 +5,9 @@ import (
 	"go/constant"
 	"go/token"
 	"go/types"
+	"math"
 	"strings"
+	"unicode"
 	"unicode/utf8"
 
 	"golang.org/x/tools/go/ssa"
@@ -32,6 +34,12 @@ type (
 	// ETuple is a multi-value result.
 	ETuple []any
 )
+
+// EClosure is a function value with its captured variables.
+type EClosure struct {
+	Fn   *ssa.Function
+	Free []any
+}
 
 // EErr is a non-nil error value (what it says is not modelled).
 type EErr struct{ Msg string }
@@ -173,6 +181,10 @@ func isUnsigned(t types.Type) bool {
 
 // Call evaluates fn on the arguments (receiver first).
 func (ev *Evaluator) Call(fn *ssa.Function, args []any, depth int) (res any, err *EvalError) {
+	return ev.callWith(fn, args, nil, depth)
+}
+
+func (ev *Evaluator) callWith(fn *ssa.Function, args []any, free []any, depth int) (res any, err *EvalError) {
 	if fn.Blocks == nil {
 		return nil, notEval("no body: %s", fn.Name())
 	}
@@ -185,6 +197,12 @@ func (ev *Evaluator) Call(fn *ssa.Function, args []any, depth int) (res any, err
 	env := map[ssa.Value]any{}
 	for i, p := range fn.Params {
 		env[p] = args[i]
+	}
+	if len(free) != len(fn.FreeVars) {
+		return nil, notEval("captured variables of %s", fn.Name())
+	}
+	for i, fv := range fn.FreeVars {
+		env[fv] = free[i]
 	}
 	val := func(v ssa.Value) (any, *EvalError) {
 		switch x := v.(type) {
@@ -270,6 +288,10 @@ func (ev *Evaluator) Call(fn *ssa.Function, args []any, depth int) (res any, err
 					}
 					env[x] = !bv
 				case token.SUB:
+					if fv, isF := o.(float64); isF {
+						env[x] = -fv
+						break
+					}
 					iv, ok := o.(int64)
 					if !ok {
 						return nil, notEval("- of non-int")
@@ -377,6 +399,13 @@ func (ev *Evaluator) Call(fn *ssa.Function, args []any, depth int) (res any, err
 					return nil, e
 				}
 				i, _ := iv.(int64)
+				if str, isStr := a.(string); isStr {
+					if i < 0 || i >= int64(len(str)) {
+						return nil, panics("index out of range [%d] with length %d", i, len(str))
+					}
+					env[x] = int64(str[i])
+					break
+				}
 				sl, ok := a.(*ESlice)
 				if !ok {
 					return nil, notEval("index of %T", a)
@@ -506,6 +535,16 @@ func (ev *Evaluator) Call(fn *ssa.Function, args []any, depth int) (res any, err
 					return nil, e
 				}
 				env[x] = o
+			case *ssa.MakeClosure:
+				cl := &EClosure{Fn: x.Fn.(*ssa.Function)}
+				for _, b := range x.Bindings {
+					bv, e := val(b)
+					if e != nil {
+						return nil, e
+					}
+					cl.Free = append(cl.Free, bv)
+				}
+				env[x] = cl
 			case *ssa.Range:
 				o, e := val(x.X)
 				if e != nil {
@@ -697,6 +736,33 @@ func binop(x *ssa.BinOp, l, r any) (any, *EvalError) {
 		case token.GEQ:
 			return a >= b, nil
 		}
+	case float64:
+		b, ok := r.(float64)
+		if !ok {
+			return nil, notEval("float %s %T", x.Op, r)
+		}
+		switch x.Op {
+		case token.ADD:
+			return a + b, nil
+		case token.SUB:
+			return a - b, nil
+		case token.MUL:
+			return a * b, nil
+		case token.QUO:
+			return a / b, nil
+		case token.EQL:
+			return a == b, nil
+		case token.NEQ:
+			return a != b, nil
+		case token.LSS:
+			return a < b, nil
+		case token.LEQ:
+			return a <= b, nil
+		case token.GTR:
+			return a > b, nil
+		case token.GEQ:
+			return a >= b, nil
+		}
 	case bool:
 		b, ok := r.(bool)
 		if !ok {
@@ -801,16 +867,33 @@ func convert(x *ssa.Convert, o any) (any, *EvalError) {
 			if bt, ok := sl.Elem().Underlying().(*types.Basic); ok && bt.Kind() == types.Uint8 {
 				return BytesOf([]byte(v)), nil
 			}
+			if bt, ok := sl.Elem().Underlying().(*types.Basic); ok && bt.Kind() == types.Int32 {
+				out := &ESlice{}
+				for _, r := range v {
+					out.L = append(out.L, &ELoc{int64(r)})
+				}
+				return out, nil
+			}
 		}
 	case *ESlice:
 		if bt, ok := dst.(*types.Basic); ok && bt.Info()&types.IsString != 0 {
+			isRunes := false
+			if sl, ok := x.X.Type().Underlying().(*types.Slice); ok {
+				if eb, ok := sl.Elem().Underlying().(*types.Basic); ok && eb.Kind() == types.Int32 {
+					isRunes = true
+				}
+			}
 			var sb strings.Builder
 			for _, l := range v.L {
 				b, ok := l.V.(int64)
 				if !ok {
 					return nil, notEval("string of non-bytes")
 				}
-				sb.WriteByte(byte(b))
+				if isRunes {
+					sb.WriteRune(rune(b))
+				} else {
+					sb.WriteByte(byte(b))
+				}
 			}
 			return sb.String(), nil
 		}
@@ -906,9 +989,30 @@ func (ev *Evaluator) call(x *ssa.Call, val func(ssa.Value) (any, *EvalError), de
 	}
 	g := x.Call.StaticCallee()
 	if g == nil {
+		fv, e := val(x.Call.Value)
+		if e != nil {
+			return nil, e
+		}
+		switch f := fv.(type) {
+		case *EClosure:
+			return ev.callWith(f.Fn, args, f.Free, depth+1)
+		case *ssa.Function:
+			if f.Blocks != nil {
+				return ev.callWith(f, args, nil, depth+1)
+			}
+		}
 		return nil, notEval("dynamic call")
 	}
-	if g.Blocks != nil && InModule(g) {
+	if mc, ok := x.Call.Value.(*ssa.MakeClosure); ok {
+		cv, e := val(mc)
+		if e != nil {
+			return nil, e
+		}
+		if cl, ok := cv.(*EClosure); ok {
+			return ev.callWith(cl.Fn, args, cl.Free, depth+1)
+		}
+	}
+	if g.Blocks != nil && (InModule(g) || g.Pkg == nil) {
 		return ev.Call(g, args, depth+1)
 	}
 	if ev.External != nil {
@@ -983,6 +1087,9 @@ func (ev *Evaluator) call(x *ssa.Call, val func(ssa.Value) (any, *EvalError), de
 	case "fmt.Errorf", "errors.New":
 		return &EErr{}, nil
 	}
+	if r, e, ok := libraryCall(FuncName(g), args); ok {
+		return r, e
+	}
 	// the few library functions small helpers use
 	str := func(i int) (string, bool) { s, ok := args[i].(string); return s, ok }
 	switch FuncName(g) {
@@ -1040,4 +1147,215 @@ func ConstInt64(v constant.Value) (int64, bool) {
 		return 0, false
 	}
 	return constant.Int64Val(v)
+}
+
+
+func stringsOf(v any) ([]string, bool) {
+	sl, ok := v.(*ESlice)
+	if !ok {
+		return nil, v == nil
+	}
+	var out []string
+	for _, l := range sl.L {
+		s, ok := l.V.(string)
+		if !ok {
+			return nil, false
+		}
+		out = append(out, s)
+	}
+	return out, true
+}
+
+func sliceOfStrings(ss []string) *ESlice {
+	out := &ESlice{}
+	for _, s := range ss {
+		out.L = append(out.L, &ELoc{s})
+	}
+	return out
+}
+
+// libraryCall models pure functions of strings, unicode, unicode/utf8 and math on concrete values.
+func libraryCall(name string, args []any) (any, *EvalError, bool) {
+	s := func(i int) string { v, _ := args[i].(string); return v }
+	isS := func(is ...int) bool {
+		for _, i := range is {
+			if i >= len(args) {
+				return false
+			}
+			if _, ok := args[i].(string); !ok {
+				return false
+			}
+		}
+		return true
+	}
+	n := func(i int) int64 { v, _ := args[i].(int64); return v }
+	isN := func(i int) bool { _, ok := args[i].(int64); return i < len(args) && ok }
+	switch name {
+	case "strings.Fields":
+		if isS(0) {
+			return sliceOfStrings(strings.Fields(s(0))), nil, true
+		}
+	case "strings.Split":
+		if isS(0, 1) {
+			return sliceOfStrings(strings.Split(s(0), s(1))), nil, true
+		}
+	case "strings.SplitN":
+		if isS(0, 1) && isN(2) {
+			return sliceOfStrings(strings.SplitN(s(0), s(1), int(n(2)))), nil, true
+		}
+	case "strings.Join":
+		if ss, ok := stringsOf(args[0]); ok && isS(1) {
+			return strings.Join(ss, s(1)), nil, true
+		}
+	case "strings.ReplaceAll":
+		if isS(0, 1, 2) {
+			return strings.ReplaceAll(s(0), s(1), s(2)), nil, true
+		}
+	case "strings.Replace":
+		if isS(0, 1, 2) && isN(3) {
+			return strings.Replace(s(0), s(1), s(2), int(n(3))), nil, true
+		}
+	case "strings.Repeat":
+		if isS(0) && isN(1) {
+			if n(1) < 0 || n(1)*int64(len(s(0))) > 1<<20 {
+				return nil, panics("strings.Repeat count"), true
+			}
+			return strings.Repeat(s(0), int(n(1))), nil, true
+		}
+	case "strings.Count":
+		if isS(0, 1) {
+			return int64(strings.Count(s(0), s(1))), nil, true
+		}
+	case "strings.IndexByte", "strings.LastIndexByte":
+		if isS(0) && isN(1) {
+			if name == "strings.IndexByte" {
+				return int64(strings.IndexByte(s(0), byte(n(1)))), nil, true
+			}
+			return int64(strings.LastIndexByte(s(0), byte(n(1)))), nil, true
+		}
+	case "strings.IndexRune", "strings.ContainsRune":
+		if isS(0) && isN(1) {
+			if name == "strings.IndexRune" {
+				return int64(strings.IndexRune(s(0), rune(n(1)))), nil, true
+			}
+			return strings.ContainsRune(s(0), rune(n(1))), nil, true
+		}
+	case "strings.IndexAny", "strings.LastIndexAny", "strings.ContainsAny":
+		if isS(0, 1) {
+			switch name {
+			case "strings.IndexAny":
+				return int64(strings.IndexAny(s(0), s(1))), nil, true
+			case "strings.LastIndexAny":
+				return int64(strings.LastIndexAny(s(0), s(1))), nil, true
+			}
+			return strings.ContainsAny(s(0), s(1)), nil, true
+		}
+	case "strings.Trim", "strings.TrimLeft", "strings.TrimRight":
+		if isS(0, 1) {
+			switch name {
+			case "strings.Trim":
+				return strings.Trim(s(0), s(1)), nil, true
+			case "strings.TrimLeft":
+				return strings.TrimLeft(s(0), s(1)), nil, true
+			}
+			return strings.TrimRight(s(0), s(1)), nil, true
+		}
+	case "strings.Title":
+		if isS(0) {
+			return strings.Title(s(0)), nil, true
+		}
+	case "unicode.IsSpace", "unicode.IsUpper", "unicode.IsLower", "unicode.IsLetter", "unicode.IsDigit", "unicode.IsPunct", "unicode.IsNumber", "unicode.IsControl", "unicode.IsPrint", "unicode.IsGraphic", "unicode.IsSymbol", "unicode.IsMark":
+		if isN(0) {
+			r := rune(n(0))
+			switch name {
+			case "unicode.IsSpace":
+				return unicode.IsSpace(r), nil, true
+			case "unicode.IsUpper":
+				return unicode.IsUpper(r), nil, true
+			case "unicode.IsLower":
+				return unicode.IsLower(r), nil, true
+			case "unicode.IsLetter":
+				return unicode.IsLetter(r), nil, true
+			case "unicode.IsDigit":
+				return unicode.IsDigit(r), nil, true
+			case "unicode.IsPunct":
+				return unicode.IsPunct(r), nil, true
+			case "unicode.IsNumber":
+				return unicode.IsNumber(r), nil, true
+			case "unicode.IsControl":
+				return unicode.IsControl(r), nil, true
+			case "unicode.IsPrint":
+				return unicode.IsPrint(r), nil, true
+			case "unicode.IsGraphic":
+				return unicode.IsGraphic(r), nil, true
+			case "unicode.IsSymbol":
+				return unicode.IsSymbol(r), nil, true
+			case "unicode.IsMark":
+				return unicode.IsMark(r), nil, true
+			}
+		}
+	case "unicode.ToUpper", "unicode.ToLower":
+		if isN(0) {
+			if name == "unicode.ToUpper" {
+				return int64(unicode.ToUpper(rune(n(0)))), nil, true
+			}
+			return int64(unicode.ToLower(rune(n(0)))), nil, true
+		}
+	case "unicode/utf8.RuneStart":
+		if isN(0) {
+			return utf8.RuneStart(byte(n(0))), nil, true
+		}
+	case "unicode/utf8.RuneLen":
+		if isN(0) {
+			return int64(utf8.RuneLen(rune(n(0)))), nil, true
+		}
+	case "unicode/utf8.ValidRune":
+		if isN(0) {
+			return utf8.ValidRune(rune(n(0))), nil, true
+		}
+	case "unicode/utf8.RuneCountInString":
+		if isS(0) {
+			return int64(utf8.RuneCountInString(s(0))), nil, true
+		}
+	case "unicode/utf8.ValidString":
+		if isS(0) {
+			return utf8.ValidString(s(0)), nil, true
+		}
+	case "unicode/utf8.DecodeRuneInString", "unicode/utf8.DecodeLastRuneInString":
+		if isS(0) {
+			var r rune
+			var w int
+			if name == "unicode/utf8.DecodeRuneInString" {
+				r, w = utf8.DecodeRuneInString(s(0))
+			} else {
+				r, w = utf8.DecodeLastRuneInString(s(0))
+			}
+			return ETuple{int64(r), int64(w)}, nil, true
+		}
+	case "math.Floor", "math.Ceil", "math.Abs", "math.Round", "math.Sqrt":
+		if f, ok := args[0].(float64); ok {
+			switch name {
+			case "math.Floor":
+				return math.Floor(f), nil, true
+			case "math.Ceil":
+				return math.Ceil(f), nil, true
+			case "math.Abs":
+				return math.Abs(f), nil, true
+			case "math.Round":
+				return math.Round(f), nil, true
+			case "math.Sqrt":
+				return math.Sqrt(f), nil, true
+			}
+		}
+	case "math.Max", "math.Min":
+		a, ok1 := args[0].(float64)
+		b, ok2 := args[1].(float64)
+		if ok1 && ok2 {
+			if name == "math.Max" {
+				return math.Max(a, b), nil, true
+			}
+			return math.Min(a, b), nil, true
+		}
+	}
+	return nil, nil, false
 }
